@@ -2,6 +2,7 @@ import Reduino.Driver.Util
 import Reduino.Driver.Core
 import Reduino.Lang.Render
 import Reduino.Lang.InF
+import Reduino.Lang.Promote
 /- `lang|tr|<sexpr>`, `lang|pyrun|<sexpr>|N|fuel`, `lang|crun|<sexpr>|N|fuel` -/
 namespace Reduino.Driver
 open Reduino.Lang
@@ -90,6 +91,9 @@ def handleLang (fields : List String) : Option String :=
       | .ok c => some ("ok " ++ hexOf ("\n".intercalate c.lines))
       | .error .breakInMainLoop => some "reject break-in-main-loop"
       | .error .outsideFragment => some "outside-fragment"
+  | ["promote", parent, branches] =>
+    let bs := (branches.splitOn ";").map words
+    some (" ".intercalate (Promote.promote Promote.sorted (words parent) bs))
   | ["lang", "inf", src] =>
     match parseProg src with
     | none => some "bad-prog"
